@@ -289,6 +289,21 @@ def build_and_audit(prop: str, thorough=False):
 # ----------------------------------------------------------------------------
 # verdict + evidence
 
+# set by `./check Cxx --replay <file>`: the recorded violation that is being re-executed against the current tree
+REPLAY_OF = None
+# members of a replay record that describe the INPUT of a case (as opposed to what the code answered)
+INPUT_KEYS = ('op', 'data_hex', 'argv', 'files', 'junk', 'entries', 'table', 'tail_hex', 'doc_json', 'desired', 'text', 'cfg', 'action_flags',
+              'severity', 'section', 'creator', 'plugins', 'history', 'pel', 'bytes_per_line', 'bytes_per_chunk', 'input_kind', 'optimise', 'procedure',
+              'decode', 'fault_step', 'errno', 'drawer', 'format', 'padded', 'fields', 'strings', 'top_level', 'case', 'mode', 'args', 'order')
+
+
+def input_identity(rp: dict):
+    rp = dict(rp)
+    if rp.get('kind') not in (None, 'failing-input', 'no-failing-input-found'):
+        rp['input_kind'] = rp['kind']      # a harness's own "kind of input" member (the record's `kind` is the record type)
+    return tuple((k, json.dumps(rp[k], sort_keys=True, default=repr)) for k in INPUT_KEYS if k in rp)
+
+
 def load_known():
     p = os.path.join(VERIF, 'known_findings.json')
     if os.path.exists(p):
@@ -352,13 +367,44 @@ class Check:
                 break
             n += 1
         body = dict(body)
+        if 'kind' in body:
+            body['input_kind'] = body['kind']
         body.update({'property': self.prop, 'kind': kind, 'seed': self.seed, 'tier': self.tier,
                      'replay_cmd': './check %s --replay %s' % (self.prop, os.path.relpath(p, VERIF))})
         with open(p, 'w') as f:
             json.dump(body, f, indent=1, default=repr)
         return os.path.relpath(p, VERIF)
 
+    def finish_replay(self):
+        """`./check Cxx --replay F`: the whole check was re-executed with the recorded seed and tier against the CURRENT tree
+        (same generators, hence the same inputs); say whether the recorded violation is still there.  Writes nothing."""
+        rp = REPLAY_OF
+        proof_ok = bool(self.proof and self.proof['ok'])
+        if rp.get('kind') == 'no-failing-input-found':
+            still = (not proof_ok) or bool(self.disagreements)
+            print('recorded: proof obligation / correspondence no longer checks (%s)' % '; '.join(map(str, rp.get('theorem_or_correspondence', [])))[:600])
+            print('now: proofs %s, %d correspondence disagreements, %d property failures on the real code'
+                  % ('check' if proof_ok else 'DO NOT check: ' + '; '.join((self.proof or {}).get('failures', []))[:300], len(self.disagreements), len(self.failures)))
+            print('REPRODUCED' if (still or self.failures) else 'NOT REPRODUCED: proofs and correspondence check again on the current tree')
+            return 1 if (still or self.failures) else 0
+        ident = input_identity(rp)
+        same_input = [f for f in self.failures if input_identity(f['replay']) == ident]
+        same_kind = [f for f in self.failures if f['what'] == rp.get('what')]
+        print('recorded: %s' % rp.get('what'))
+        print('now: %d property failures on the real code in the re-run (%d of the same kind, %d on exactly the recorded input), %d disagreements'
+              % (len(self.failures), len(same_kind), len(same_input), len(self.disagreements)))
+        if same_input:
+            print('REPRODUCED: the real code still breaks the property on the recorded input: ' + same_input[0]['what'])
+            return 1
+        if self.failures:
+            print('REPRODUCED (other input): the recorded input passes, but the re-run found %d other failing inputs, e.g. %s' % (len(self.failures), self.failures[0]['what']))
+            return 1
+        print('NOT REPRODUCED: the property holds on the recorded input (and on every other input of the re-run) now')
+        return 0
+
     def finish(self, rule, trusted_base, assumptions, exhaustive=False, extra=None):
+        if REPLAY_OF is not None:
+            return self.finish_replay()
         known = load_known().get('known', [])
         violations = 0
         lines = []
